@@ -343,6 +343,12 @@ class Extractor:
                 return
             elif isinstance(st, ast.Pass):
                 continue
+            elif isinstance(st, ast.AugAssign) and path_of(st.target) is not None and path_of(st.target) not in self.env \
+                    and str(path_of(st.target)).startswith('self.'):
+                # bookkeeping on the lexer / parser object (self.lineno += ...): does not touch the value under analysis; recorded for the
+                # contracts that care about it (self_updates)
+                self.self_updates = getattr(self, 'self_updates', []) + [ast.unparse(st)]
+                continue
             else:
                 raise FstError(f'statement {type(st).__name__}')
         self.paths.append((dom, None, dict(self.env)))
